@@ -79,6 +79,11 @@ Step(e) ==
     [] e.ev = "merge" ->
          /\ slots' = [slots EXCEPT ![e.d] = [Fresh EXCEPT !.pending = Concat([i \in 1..Len(e.srcs) |-> slots[e.srcs[i]].issued])]]
          /\ UNCHANGED <<plain, skip, errs>>
+    [] e.ev = "index_capacity" ->
+         \* FlatStack::with_capacity(n): capacity() >= n at once, and the n copies leave it unchanged
+         LET bad == e.cap0 < e.announced \/ e.len # e.announced \/ \E i \in 1..Len(e.caps) : e.caps[i] # e.cap0
+         IN  IF bad THEN errs' = Err(e, "index-capacity-changed-after-with-capacity") /\ UNCHANGED <<slots, plain, skip>>
+             ELSE UNCHANGED <<slots, plain, skip, errs>>
     [] e.ev = "end" ->
          \* logarithmic growth: the number of growth steps of every storage is bounded by log2 of its capacity
          \* O(log n) allocator calls per internal storage: the whole run may call the allocator at most
